@@ -48,6 +48,7 @@ def run(ctx):
     for config in ctx.configs:
         fx = ctx.facts(config)
         rule_use_site_sources(ctx, fx, config)
+        rule_locate_once(ctx, fx, config)
         a = fx.fn("location::location_from_span")
         b_ = fx.fn("de_error::Error::from_scan_error")
         ra = check_ctor(ctx, fx, config, a, "span.start")
@@ -218,3 +219,41 @@ def rule_use_site_sources(ctx, fx, config, prop="C16"):
         pre = [b for b in f.reachable([0], avoid=[sw]) if f.blocks[b]["term"]["k"] == "switch" and b != sw]
         ctx.check(not pre, "USE-SITE", key + ":unconditional", "the override is consulted before any other condition (it holds for the whole replay, not only its first event)",
                   "%s tests another condition before consulting %s: for %s deeper than the first event the definition site is reported as the use site (`referenced == defined`)" % (name, field, what), config, ctx.where(f, pre[0] if pre else None))
+
+
+def rule_locate_once(ctx, fx, config, prop="C16"):
+    """LOCATE-ONCE: an error that comes out of a *nested deserialization* may already carry the precise location of the
+    offending node (e.g. the repeated key inside a composite key); Error::with_location overwrites.  A map_err closure over
+    such a result attaches a location only when the error has none."""
+    n = 0
+    for f in sorted(fx.fns.values(), key=lambda f: f.npath):
+        if not f.file.endswith(("src/de.rs", "src/lib.rs", "with_deserializer.rs")):
+            continue
+        for b, t in f.calls():
+            if last_seg(fx.callee(t)) != "map_err" or len(t["args"]) < 2:
+                continue
+            with f.deep():
+                src = f.sym_operand(t["args"][0])
+                cl = f.sym_operand(t["args"][1])
+            nested = sym_contains(src, lambda x: x[0] == "call" and last_seg(x[1]) == "deserialize" and ("DeserializeSeed" in x[1] or "Deserialize" in x[1] or "serde::de" in x[1]))
+            if not nested or cl[0] != "mkclosure":
+                continue
+            g = fx.fns.get(cl[1])
+            if g is None:
+                continue
+            wl = [gb for gb, gt in g.calls() if fx.callee(gt) == "de_error::Error::with_location"]
+            if not wl:
+                continue
+            n += 1
+            ctx.saw(f)
+            guards = []
+            for sb, sym, tt, ff in bool_switches(g):
+                with g.deep():
+                    d = g.sym_operand(g.blocks[sb]["term"]["o"])
+                r = render(d)
+                if "is_none(" in r and "location(" in r:
+                    guards.append((sb, ff if d[0] == "un" else tt))
+            okg = all(any(g.edge_dominates(sb, e, wb) for sb, e in guards) for wb in wl)
+            ctx.check(okg, "LOCATE-ONCE", "%s:LOCATE-ONCE:%s" % (prop, f.npath.split("::")[-1]), "the location is attached only to an error that has none",
+                      "%s overwrites the location of every error coming out of the nested deserialization with the start of the enclosing node: a duplicate key inside a composite key is reported at the composite key's start, not at the repeated key" % f.npath, config, ctx.where(f, b))
+    ctx.floor("LOCATE-ONCE.sites", n, 1, config)
